@@ -183,6 +183,10 @@ def run(run):
                     with open(os.path.join(dname, "T%d.java" % i), "w") as f:
                         f.write("package p%02d;\nclass T%d { int f%d; void m%d() { f%d = %d; h%d(); h%d(1); h%d(); h%d(2); h%d(); h%d(3); } void h%d() { } void h%d(int a) { } }\n" %
                                 (i % 17, i, i, i, i, i, i, i, i, i, i, i, i, i))
+                        if nf == 450:
+                            # (the project whose call links are compared across runs: many links per file, so that merging one
+                            #  file's links takes long enough to overlap with another merger's, if there is one)
+                            f.write("class U%d { void n%d() { %s } void k%d() { } void k%d(int a) { } }\n" % (i, i, " ".join("k%d(); k%d(%d);" % (i, i, j) for j in range(40)), i, i))
                 # (one processor: the collector falls behind the workers and results queue up by the hundred)
                 for procs in (([1] if nf == 2000 else [0]) if quick else [1, 16]):
                     r = h.call(op="scan-order", dir=root, graph="g", order=[], procs=procs, timeout=120)
@@ -210,7 +214,7 @@ def run(run):
                                               (nf, sum(link_ref.values()), sum(lk.values()), sum((link_ref - lk).values())), dict(nfiles=nf, procs=16))
                                 break
                     seen = {n["file"] for n in r["nodes"]}
-                    classes = sum(1 for n in r["nodes"] if n["type"] == "class_declaration")
+                    classes = sum(1 for n in r["nodes"] if n["type"] == "class_declaration" and n["name"].startswith("T"))
                     if len(seen) != nf or classes != nf:
                         run.violation("C07:files-lost", "%d files scanned but entities of %d files (%d classes) reported" % (nf, len(seen), classes), dict(nfiles=nf, procs=procs))
             finally:
